@@ -41,8 +41,18 @@ func verifC01Case(vc *verifCtx, i int) {
 		return
 	}
 	defer e.Close()
+	e.richAdds = true
 	e.oracles = map[string]bool{"tx_exact": true}
 	e.checkStep()
+	if r.Chance(1, 15) {
+		// large commitments: a burst of adds from one or both sides.
+		e.burst(r.Intn(2), 20+r.Intn(200))
+		if r.Bool() {
+			e.burst(r.Intn(2), 20+r.Intn(100))
+		}
+		vc.Count("burst_cases", 1)
+		e.checkStep()
+	}
 	for a := 0; a < nActions && !e.ended; a++ {
 		lbl := e.step(true)
 		if lbl == "noop" {
